@@ -337,7 +337,13 @@ def random_instance(rnd, family, stable=False):
         d = dt * rnd.choice([F(1), F(1), F(1, 2), F(1, 4), F(2), F(3, 2)]) if cont_unit else dt
         op = {'op': 'run', 'sid': sid, 'dt': d, 'T': d * n}
         if family in ('control', 'mixed', 'lock') and rnd.random() < (0.9 if family == 'control' else 0.5):
-            inst['ctrls'].append(random_rules(rnd, elems, dt, n))
+            if inst['ctrls'] and rnd.random() < 0.35:
+                # the SAME control object as the previous controlled run, with rules added to it in between
+                base = len(inst['ctrls']) - 1
+                inst['ctrls'].append(list(inst['ctrls'][base]) + random_rules(rnd, elems, d, n, kind=rnd.choice([0, 1, 1, 2])))
+                inst.setdefault('ctrl_extends', {})[len(inst['ctrls']) - 1] = base
+            else:
+                inst['ctrls'].append(random_rules(rnd, elems, d, n))
             op['ctrl'] = len(inst['ctrls']) - 1
         if family in ('stop', 'mixed') and rnd.random() < (0.9 if family == 'stop' else 0.3):
             inst['stops'].append(random_stop(rnd, elems, dt, n))
